@@ -291,13 +291,6 @@ func (h *hist) submit(to int) {
 	if h.x.Tip == before && to != before && !h.applied[to] {
 		h.side = append(h.side, to)
 	}
-	// the specification's reorg rule is "higher wins" (equal block spacing); the generator must keep
-	// its promise, otherwise the history is outside the scenario
-	higher := h.s.Node(to).Height > h.s.Node(before).Height
-	if higher != (h.x.Tip == to) && !(h.x.Tip == to && to == before) {
-		h.x.mismatch("harness:reorg-rule", "submitting node %d (height %d) with tip %d (height %d) left the tip at %d", to, h.s.Node(to).Height, before, h.s.Node(before).Height, h.x.Tip)
-		h.x.dead = true
-	}
 }
 
 // addBlock mines one child of abstract node `parent`: confirms a prefix of the pool, or conflicts
